@@ -84,9 +84,59 @@ def _tr(tree, ic, ao, atoms):
     return _seq(out)
 
 
+def _is_digit_class(sub):
+    items = list(sub)
+    if len(items) != 1:
+        return False
+    op, av = items[0]
+    if op is C.IN:
+        return all((o is C.CATEGORY and a is C.CATEGORY_DIGIT) or (o is C.RANGE and (chr(a[0]), chr(a[1])) == ('0', '9'))
+                   for o, a in av)
+    return op is C.CATEGORY and av is C.CATEGORY_DIGIT
+
+
+def _cannot_start_with_digit(items):
+    """conservative: True only if no string of the (remaining) sequence begins with a digit"""
+    for op, av in items:
+        if op is C.LITERAL:
+            return not chr(av).isdigit()
+        if op in (C.MAX_REPEAT, C.MIN_REPEAT):
+            lo, hi, sub = av
+            sub = list(sub)
+            if not _cannot_start_with_digit(sub) or not sub:
+                return False
+            if lo > 0:
+                return True
+            continue            # optional, and it cannot start with a digit: look at what follows
+        if op is C.ASSERT_NOT:
+            continue
+        return False
+    return True                 # end of the pattern
+
+
+def _strip_vacuous_assertions(tree):
+    """Under re.fullmatch a negative look-behind for a digit at the very start of the pattern, and a negative look-ahead
+    for a digit at a position where only non-digits (or the end) can follow, can never fail: they constrain the CONTEXT
+    of a search() match, not the fully matched language.  Such assertions are dropped; any other assertion is refused."""
+    items = list(tree)
+    out = []
+    for i, (op, av) in enumerate(items):
+        if op is C.ASSERT_NOT:
+            direction, sub = av
+            if not _is_digit_class(sub):
+                raise Unsupported("assertion on something else than one digit")
+            if direction < 0 and all(o is C.ASSERT_NOT for o, _ in items[:i]):
+                continue
+            if direction > 0 and _cannot_start_with_digit(items[i + 1:]):
+                continue
+            raise Unsupported("non-vacuous look-around assertion")
+        out.append((op, av))
+    return out
+
+
 def to_z3(pat: re.Pattern):
     """z3 regex denoting exactly the strings fully matched by pat (re.fullmatch)."""
-    tree = sre_parse.parse(pat.pattern, pat.flags)
+    tree = _strip_vacuous_assertions(sre_parse.parse(pat.pattern, pat.flags))
     atoms = []
     return _tr(tree, bool(pat.flags & re.IGNORECASE), bool(pat.flags & re.ASCII), atoms), atoms
 
